@@ -5482,7 +5482,9 @@ func (t *Terminal) Loop() error {
 				// around the current scroll offset.
 				var minOffset, maxOffset, lineSum int
 				if direction > 0 {
-					maxOffset = t.offset
+					// offset-up and offset-down can leave the offset out of range
+					// until the next rendering
+					maxOffset = util.Max(t.offset, 0)
 					for ; maxOffset < t.merger.Length(); maxOffset++ {
 						itemLines, _ := t.numItemLines(t.merger.Get(maxOffset).item, maxItems)
 						lineSum += itemLines
